@@ -31,6 +31,7 @@ GRAPHS = {
     "two_stocks_one_process": (["sysenv", "A"], [("sysenv", "A", "te"), ("A", "sysenv", "te")], [("A", "te"), ("A", "t")]),
     "inner_ring_mixed_dims": (["sysenv", "A", "B", "C"], [("sysenv", "A", "te"), ("A", "B", "t"), ("B", "C", "te"), ("C", "A", "er"), ("C", "sysenv", "t")], []),
     "scalar_flow_after_dimensional": (["sysenv", "A", "B"], [("sysenv", "A", "te"), ("A", "B", ""), ("B", "sysenv", "e"), ("B", "sysenv", "")], []),
+    "names_contain_each_other": (["sysenv", "A", "AB"], [("sysenv", "A", "te"), ("A", "AB", "te"), ("AB", "sysenv", "te"), ("sysenv", "AB", "t")], []),
     "stocks_on_two_processes": (["sysenv", "A", "B"], [("sysenv", "A", "te"), ("A", "B", "et"), ("B", "sysenv", "t")], [("A", "te"), ("B", "tr"), (None, "t")]),
 }
 
@@ -362,7 +363,7 @@ def u_check_mass_balance(W, sk):
     "system.check_flows",
     props=["C02"],
     targets=["flodym.mfa_system.MFASystem.check_flows", "flodym.mfa_system.MFASystem._absolute_float_precision", "flodym.mfa_system.MFASystem._error_or_warning"],
-    skeletons=lambda tier: [{"graph": g, "exc": e} for g in ("chain_mixed_dims", "with_stock", "parallel_and_opposing", "no_stocks_scalar_flows", "no_flows") for e in ("none", "by_flow_name", "by_process")],
+    skeletons=lambda tier: [{"graph": g, "exc": e} for g in ("chain_mixed_dims", "with_stock", "parallel_and_opposing", "no_stocks_scalar_flows", "no_flows", "names_contain_each_other") for e in ("none", "by_flow_name", "by_process")],
     note="raise_error=False: a warning is emitted for exactly the non-excepted flows that have an entry below -tolerance (NaN: bounded unit); excepted flows (by name, source or target) are never flagged",
 )
 def u_check_flows(W, sk):
